@@ -13,6 +13,7 @@ LOCK, WRITE, INCR, READH, RELEASE, CANCEL, MOVE = 0, 4, 5, 6, 7, 8, 9
 LS, TLS, TLSF, TLSU, READS, DROPS, COPYS = 10, 11, 12, 13, 14, 15, 16
 RELEASE_UNW = 17          # the same release, run by a destructor while an unrelated exception unwinds the stack
 RELEASES = (RELEASE, RELEASE_UNW)
+REARM = 18                # h = b.lock() from a second object: exists only if a library change makes handles move-assignable
 SHARED = (LS, TLS, TLSF, TLSU)
 # own steps of the operations (for boundary-aimed schedules)
 LOCK_STEPS = 9       # invoke | lock ldc inc ldr call rb re dec
@@ -59,6 +60,10 @@ def _writer_session(rng, nw, vals, end=None):
                 ops.append([k, x])
                 if k != CANCEL:
                     nulls.remove(x)
+    if rng.chance(1, 10):
+        ops.append([REARM, s])          # refused by the unmodified library (and by the model)
+        if rng.chance(1, 2):
+            ops.append([INCR, s])
     if rng.chance(1, 4):
         ops.append([READH, s])
     if end is None:
@@ -312,6 +317,12 @@ class _Replay:
                 s = where.pop((t, _arg(o, 0)), None)
                 if s is not None:
                     where[(t, _arg(o, 1))] = s
+            elif c == REARM and ok:
+                # (only after a library change) the old handle is released into this object; whatever is done through the
+                # variable afterwards concerns the other object and must not show here
+                s = where.pop((t, _arg(o, 0)), None)
+                if s is not None:
+                    s['end'], s['kind'] = o, RELEASE
             elif c in RELEASES + (CANCEL,) and (ok or not o['done']):
                 # the handle leaves its slot at the invocation
                 s = where.pop((t, _arg(o, 0)), None)
